@@ -819,6 +819,11 @@ def parse_range_header(
                 begin = _plain_int(item)
             except ValueError:
                 return None
+
+            if begin == 0:
+                # A suffix length of zero selects nothing.
+                return None
+
             end = None
             last_end = -1
         elif "-" in item:
